@@ -245,9 +245,18 @@ func newEnv(root string, compress bool) *vcEnv {
 	return &vcEnv{root: root, cacheDir: filepath.Join(root, "cache"), compress: compress}
 }
 
+// set per scenario by TestVerifCache
+var (
+	vcPkgName  = "pkg"
+	vcDirSlash = false
+)
+
 func (e *vcEnv) newCache() *dirCache {
 	config := core.DefaultConfiguration()
 	config.Cache.Dir = e.cacheDir
+	if vcDirSlash {
+		config.Cache.Dir = e.cacheDir + "/"
+	}
 	config.Cache.DirCompress = e.compress
 	config.Cache.DirClean = false
 	return newDirCache(config)
@@ -256,7 +265,7 @@ func (e *vcEnv) newCache() *dirCache {
 // target returns the build target as seen by simulated process proc: same package and name (hence
 // the same cache entry) but its own output directory, as two checkouts sharing one cache have.
 func vcTarget(proc string, outs []string) *core.BuildTarget {
-	t := core.NewBuildTarget(core.BuildLabel{Subrepo: proc, PackageName: "pkg", Name: "tgt"})
+	t := core.NewBuildTarget(core.BuildLabel{Subrepo: proc, PackageName: vcPkgName, Name: "tgt"})
 	for _, o := range outs {
 		t.AddOutput(o)
 	}
@@ -448,9 +457,10 @@ func c12Finding(p c12Params, cls string, n int64, oplog []string) string {
 	if (cls != "partial-hit-after-crash" && cls != "partial-hit-after-io-error") || !p.Restore || p.Compress || n < 1 || int(n) > len(oplog) {
 		return ""
 	}
+	entry := filepath.Join("cache", vcPkgName, "tgt") + "/"
 	for _, l := range oplog[:n] {
 		f := strings.Fields(l)
-		if len(f) < 2 || (f[0] != "unlink" && f[0] != "rmdir") || !strings.HasPrefix(f[1], "cache/pkg/tgt/") || strings.Contains(f[1], "==") {
+		if len(f) < 2 || (f[0] != "unlink" && f[0] != "rmdir") || !strings.HasPrefix(filepath.Clean(f[1])+"/", entry) || strings.Contains(f[1], "==") {
 			return ""
 		}
 	}
@@ -792,6 +802,28 @@ func TestVerifCache(t *testing.T) {
 	for i := run.Start; i < run.Start+run.Count; i++ {
 		seed := verifsim.SubSeed(run.Seed, fmt.Sprintf("%s/%d", run.Mode, i))
 		root := filepath.Join(run.Root, fmt.Sprintf("s%d", i))
+		// layout of the cache: which package the target lives in and how the cache directory is spelled
+		// (0-2: //pkg, 3: the root package, 4: a nested package, 5: //pkg with a trailing slash on the directory)
+		layout := int(verifsim.SubSeed(seed, "layout") % 6)
+		if len(run.Replay) > 0 {
+			var lay struct {
+				Layout *int `json:"layout"`
+			}
+			json.Unmarshal(run.Replay, &lay)
+			layout = 0
+			if lay.Layout != nil {
+				layout = *lay.Layout
+			}
+		}
+		vcPkgName, vcDirSlash = "pkg", false
+		switch layout {
+		case 3:
+			vcPkgName = ""
+		case 4:
+			vcPkgName = "a/b"
+		case 5:
+			vcDirSlash = true
+		}
 		var res vcResult
 		switch run.Mode {
 		case "c12":
@@ -849,6 +881,18 @@ func TestVerifCache(t *testing.T) {
 			panic("unknown mode " + run.Mode)
 		}
 		res.Index = i
+		for _, v := range append([]*vcViolation{res.Violation}, res.Known...) {
+			if v != nil && v.Replay != nil {
+				v.Replay["layout"] = layout
+				if pm, ok := v.Replay["params"].(map[string]interface{}); ok {
+					pm["layout"] = layout
+				}
+			}
+		}
+		if res.Stats == nil {
+			res.Stats = map[string]int64{}
+		}
+		res.Stats[fmt.Sprintf("layout_%d", layout)]++
 		must(enc.Encode(res))
 		os.Chdir(run.Root)
 		os.RemoveAll(root)
